@@ -93,7 +93,7 @@ def array_cases(rng, tier):
     from gstools.transform import array as A
     from gstools.normalizer import BoxCox
     sizes = [1, 2, 3, 5, 17, 64] if tier == "quick" else [1, 2, 3, 5, 17, 64, 257]
-    reps = 2 if tier == "quick" else 6
+    reps = 6 if tier == "quick" else 30
     cases = []
     for rep in range(reps):
         for n in sizes:
@@ -323,7 +323,7 @@ def discrete_statement(x, values, thresholds, out, m, v):
 def probe_pointwise(ctx, rng):
     """F_target(T(x)) = Phi((x-m)/sigma) on grids over +-8 sigma, against scipy's independent distribution functions"""
     from gstools.transform import array as A
-    reps = 4 if ctx.tier == "quick" else 20
+    reps = 10 if ctx.tier == "quick" else 100
     zgrid = np.concatenate([np.linspace(-8, 8, 1601), rng.normal(size=400), [0.0, 1e-12, -1e-12]])
     for rep in range(reps):
         m = float(rng.choice([0.0, 1.0, -7.0, float(rng.normal() * 10)]))
@@ -381,9 +381,9 @@ def probe_ks(ctx, rng):
     """large seeded normal samples through every array transformation; Kolmogorov distance to the target cdf
     below the DKW bound at level 1e-9 (so a correct tree fails with probability < 1e-9 per test)"""
     from gstools.transform import array as A
-    n = 200000 if ctx.tier == "quick" else 1500000
+    n = 500000 if ctx.tier == "quick" else 4000000
     eps = dkw(n)
-    reps = 1 if ctx.tier == "quick" else 3
+    reps = 2 if ctx.tier == "quick" else 5
     for rep in range(reps):
         m = float(rng.choice([0.0, 2.5, -4.0]))
         s = lu(rng, 0.2, 5)
@@ -445,7 +445,7 @@ def probe_ks(ctx, rng):
 def probe_partition(ctx, rng):
     """discrete / binary: output only the given values, partitioned at the stated thresholds"""
     from gstools.transform import array as A
-    reps = 60 if ctx.tier == "quick" else 400
+    reps = 250 if ctx.tier == "quick" else 3000
     for rep in range(reps):
         n = int(rng.choice([1, 2, 7, 50, 400]))
         x, m, s = gen_field(rng, n)
@@ -582,7 +582,7 @@ def valid_for_process(cfg, data, tr):
 def wrapper_correspondence(ctx, rng, drv):
     """operation sequences on a Field with stored fields: after every Field.transform call compare the returned values,
     the error kind, the list of stored names and every stored field with the model's transform_step"""
-    nseq = 40 if ctx.tier == "quick" else 300
+    nseq = 150 if ctx.tier == "quick" else 1500
     nops = 0
     for seq in range(nseq):
         cfg = gen_cfg(rng)
@@ -613,6 +613,12 @@ def wrapper_correspondence(ctx, rng, drv):
             src_data = np.array(fld[src], dtype=float) if src in present else None
             if process and src_data is not None and not valid_for_process(cfg, src_data, tr):
                 process = False
+            if mname == "normal_force_moments" and src_data is not None:
+                # sqrt(var / var_in) on a (nearly) constant field is 0/0-conditioned: the result is rounding noise of the
+                # summation order on both sides (e.g. after a discrete step put every cell into one class): use another method
+                dd = src_data - (tr if (tr is not None and process) else 0.0)
+                if not np.isfinite(dd).all() or np.ptp(dd) <= 1e-6 * (1.0 + np.max(np.abs(dd))):
+                    mname, kw, enc = "normal_to_lognormal", {}, (5, 0, E, E, E)
             before = {k: np.array(fld[k], dtype=float).copy() for k in present}
             ri = impl_call(fld.transform, mname, field=src, store=store, process=process, keep_mean=keep_mean, **kw)
             store_enc = ("z", -2) if store is True else ("z", -1) if store is False else ("z", NAMES.index(store))
@@ -671,13 +677,10 @@ def probe_wrappers(ctx, rng):
     """every wrapper x process x keep_mean x normalizer x trend on large iid normal-space samples: the value handed to the
     target law follows it (Kolmogorov distance, DKW 1e-9), exact moments, partitions; guard behaviour"""
     import gstools as gs
-    n = 100000 if ctx.tier == "quick" else 600000
+    n = 200000 if ctx.tier == "quick" else 1500000
     eps = dkw(n)
     combos = [(False, True, 0, "none"), (True, True, 0, "none"), (True, False, 0, "none"), (True, True, 1, "linear"),
               (True, False, 1, "const"), (True, False, 2, "none"), (True, True, 2, "linear")]
-    if ctx.tier == "quick":
-        idx = rng.permutation(len(combos))[:4]
-        combos = [combos[0]] + [combos[i] for i in idx if i != 0][:3]
     for process, keep_mean, ncode, trend in combos:
         cfg = dict(mean=float(rng.choice([0.8, -1.2, 2.0])), var=lu(rng, 0.3, 2.0), nugget=float(rng.choice([0.0, 0.2])), ncode=ncode,
                    lmbda=0.3, trend=trend, t0=float(rng.normal()), t1=1e-5)
@@ -708,7 +711,7 @@ def probe_wrappers(ctx, rng):
                 warnings.simplefilter("ignore")
                 return np.array(fld.normalizer.normalize(out - (0.0 if tr is None else tr)), dtype=float) - shift
 
-        low, high = -1.0 + float(rng.normal()), 2.5
+        low, high = -1.0 + 0.5 * float(np.clip(rng.normal(), -2, 2)), 2.5     # > -1/0.3: inside BoxCox(0.3)'s denormalize range
         a, b = marg - 3.0, marg + 1.0
         vals = np.array([-1.0, 0.5, 2.0, 3.5]) + marg
         tests = [
@@ -778,6 +781,33 @@ def probe_wrappers(ctx, rng):
                                   mode, process, keep_mean, " raised %s" % out[2] if is_err(out) else ": output is not the value of the class of the input"),
                               dict(mode=mode, process=process, keep_mean=keep_mean, cfg=cfg, n=n, seed=ctx.seed, thresholds_type=type(bt).__name__,
                                    error=(list(out) if is_err(out) else None)), key="wpartition:%s" % mode)
+    # method-name dispatch of transform.apply (short aliases, user functions, unknown names)
+    f = gs.SRF(gs.Gaussian(dim=1, var=2.0), mean=0.7, normalizer=gs.normalizer.LogNormal(), trend=lambda x: 0.1 * x)
+    p5 = np.arange(40.0)
+    f.set_pos([p5], "unstructured")
+    z5 = rng.normal(0.7, math.sqrt(2.0), size=40)
+    f.post_field(np.exp(z5) + 0.1 * p5, name="field", process=False, save=True)
+    for full, alias, kw in (("normal_to_uniform", "uniform", dict(low=-1.0, high=2.0)), ("normal_to_arcsin", "arcsin", {}), ("normal_to_uquad", "uquad", {}),
+                            ("normal_to_lognormal", "lognormal", {}), ("normal_force_moments", "force_moments", {})):
+        for km in (True, False):
+            a1 = impl_call(f.transform, full, store=False, process=True, keep_mean=km, **kw)
+            a2 = impl_call(f.transform, alias, store=False, process=True, keep_mean=km, **kw)
+            ctx.count(("alias", alias, km), hist=dict(probe="dispatch"))
+            if is_err(a1) or is_err(a2) or not C.bit_equal(a1, a2):
+                ctx.violation("probe: transform.apply dispatch", "Field.transform('%s') and Field.transform('%s') differ" % (full, alias),
+                              dict(full=full, alias=alias, keep_mean=km), key="dispatch:%s" % alias)
+    for km in (True, False):
+        got = impl_call(f.transform, "function", function=lambda d, c: c * d + 1.0, c=0.5, store=False, process=True, keep_mean=km)
+        sh5 = 0.0 if km else 0.7
+        want = np.exp(0.5 * (np.log(np.exp(z5)) - sh5) + 1.0 + sh5) + 0.1 * p5
+        ctx.count(("function", km), hist=dict(probe="dispatch"))
+        if is_err(got) or not close(got, want, rtol=1e-9, scale=np.abs(want) + 1.0):
+            ctx.violation("probe: apply_function processing", "Field.transform('function', process=True, keep_mean=%s) is not post(f(pre(field)))" % km,
+                          dict(keep_mean=km, got=(list(got) if is_err(got) else hexl(got)), want=hexl(want)), key="dispatch:function")
+    got = impl_call(f.transform, "no_such_transformation", store=False)
+    ctx.count(("unknown",), hist=dict(probe="dispatch"))
+    if not (is_err(got) and got[0] == "err" and got[1] == 1):
+        ctx.violation("probe: transform.apply dispatch", "unknown method name did not raise ValueError", dict(got=str(got)), key="dispatch:unknown")
     # _check_for_default_normal: transformations that need the mean/variance refuse non-normal fields when process=False
     model = gs.Gaussian(dim=1, var=1.0)
     guard_cfgs = [("normalizer", dict(normalizer=gs.normalizer.LogNormal())), ("trend", dict(trend=1.0)), ("mean callable", dict(mean=lambda x: x)),
